@@ -65,6 +65,7 @@ def native_to_serde(d):
 SERDE_ONLY = {
     "bytes": "bytes", "bytes2": "bytes", "str2": "str",
     "cseq_u16": "useq(u16)", "cseq_str": "useq(str)", "cmap_u8_str": "umap(u8,str)", "vec_cseq": "seq(useq(u8))", "tup_cseq_u8": "tup(useq(u8),u8)",
+    "kvmap_u8_str": "map(u8,str)", "kvmap_str_seq": "map(str,seq(i32))", "vec_kvmap": "seq(map(u8,bool))",
     "useq_u16": "useq(u16)", "useq_point": "useq(%s)" % POINT, "umap_string_i32": "umap(str,i32)", "umap_u8_useq": "umap(u8,useq(bool))",
     "UnitS": "ustruct", "NewU64": "nt(u64)", "NewOpt": "nt(opt(u8))", "NewVec": "nt(seq(i16))", "TupS": "ts(u8,str,i16)",
     "Point": POINT, "Empty": "st{}",
